@@ -1,6 +1,6 @@
 """C10 - Hardware switch-to-coil rules match the enabled devices exactly.
 
-SUT: Flipper (five wirings), AutofireCoil (plain, delayed pulse, timeout protection, reversed NC switch,
+SUT: Flipper (five wirings + one with normally-closed button and EOS switches), AutofireCoil (plain, delayed pulse, timeout protection, reversed NC switch,
 shared switch), Kickback, PlatformController (rule creation/removal, PSU switch handlers, software EOS
 repulse manager), ball search, the stock tilt / service / game / attract modes - on SimPlatform, whose rule
 table counts installs/clears instead of asserting.
@@ -63,7 +63,10 @@ FLIPPERS = {
     "f3": {"main": "c_f3_main", "hold": "c_f3_hold", "sw": "s_f3", "eos": "s_f3_eos"},
     "f4": {"main": "c_f4_main", "hold": None, "sw": "s_f4", "eos": "s_f4_eos"},
     "f5": {"main": "c_f5_main", "hold": "c_f5_hold", "sw": "s_f5", "eos": "s_f5_eos"},
+    "f6": {"main": "c_f6_main", "hold": None, "sw": "s_f6", "eos": "s_f6_eos"},      # NC button, NC EOS
 }
+# normally-closed switches of the cabinet world: driven through raw platform reports (hw state 0 = active)
+NC_RAW = {"s_f6", "s_f6_eos"}
 AUTOFIRES = {
     "a1": {"coil": "c_a1", "sw": "s_a1", "delay": False},
     "a2": {"coil": "c_a2", "sw": "s_a2", "delay": True},
@@ -147,10 +150,10 @@ def _gen_op(ch):
         op["dev"] = ch.pick("bdev", list(FLIPPERS))
         op["down"] = ch.flag("down", 0.55)
     elif kind == "eos":
-        op["dev"] = ch.pick("edev", ["f3", "f4", "f4", "f5", "f5"])
+        op["dev"] = ch.pick("edev", ["f3", "f4", "f4", "f5", "f5", "f6", "f6"])
         op["close"] = ch.flag("close", 0.55)
     elif kind == "cradle":
-        op["dev"] = ch.pick("cdev", ["f4", "f5", "f3", "f4"])
+        op["dev"] = ch.pick("cdev", ["f4", "f5", "f3", "f4", "f6", "f6"])
         op["knock"] = not ch.flag("noknock", 0.3)
     elif kind == "hit":
         op["sw"] = ch.pick("hsw", HIT_SWITCHES)
@@ -167,6 +170,7 @@ def plan(ch, tier):
         "f3_repulse": ch.flag("cfg.f3_repulse", 0.4),
         "f4_repulse": not ch.flag("cfg.f4_norepulse", 0.25),
         "f5_repulse": not ch.flag("cfg.f5_norepulse", 0.25),
+        "f6_repulse": not ch.flag("cfg.f6_norepulse", 0.2),
         "eos_ms": ch.pick("cfg.eos_ms", [100, 20, 500]),
         "ball_search": ch.flag("cfg.ball_search", 0.5),
         "bs_flippers": [f for f in FLIPPERS if ch.flag("cfg.bs_flip", 0.5)],
@@ -209,7 +213,7 @@ def _patches(cfg):
     fl = {}
     for f in FLIPPERS:
         fl[f] = {"include_in_ball_search": f in cfg["bs_flippers"], "ball_search_hold_time": cfg["bs_hold"]}
-    for f in ("f3", "f4", "f5"):
+    for f in ("f3", "f4", "f5", "f6"):
         fl[f]["repulse_on_eos_open"] = cfg[f + "_repulse"]
         fl[f]["eos_active_ms_before_repulse"] = "%dms" % cfg["eos_ms"]
     p = {
@@ -266,7 +270,7 @@ def execute(ctx, plan):
     swname = {v: k for k, v in swnum.items()}
     coilname = {v: k for k, v in coilnum.items()}
     exp_rules = {d: expected_rules(d, cfg) for d in DEVS}
-    repulse = {"f3": cfg["f3_repulse"], "f4": cfg["f4_repulse"], "f5": cfg["f5_repulse"]}
+    repulse = {f: cfg[f + "_repulse"] for f in ("f3", "f4", "f5", "f6")}
     # timeout protection: (watch seconds as configured, max hits)
     timeout = {"a3": (_secs(cfg["a3_watch"]), cfg["a3_hits"])}
     if cfg["k1_timeout"]:
@@ -668,7 +672,13 @@ def execute(ctx, plan):
 
     # ---- operations ----------------------------------------------------------------------------------
     def hit(sw, state):
-        sim.hit_switch(sw, state)
+        if sw in NC_RAW:
+            # what an opto board reports: the raw contact state, closed (1) at rest, open (0) when actuated
+            sim.hit_switch(sw, 0 if state else 1, logical=False)
+            if bool(m.switches[sw].state) != bool(state):
+                raise AssertionError("raw report on NC switch %s did not give logical state %r" % (sw, state))
+        else:
+            sim.hit_switch(sw, state)
 
     def record_hit(sw):
         now = loop.time()
